@@ -28,7 +28,9 @@ type Verdict struct {
 	Lines    int
 }
 
-func (v *Verdict) Clean() bool { return len(v.Diffs) == 0 && len(v.MonFails) == 0 && len(v.Others) == 0 }
+func (v *Verdict) Clean() bool {
+	return len(v.Diffs) == 0 && len(v.MonFails) == 0 && len(v.Others) == 0
+}
 
 func driverPath() string {
 	if p := os.Getenv("GRIBIDRV"); p != "" {
